@@ -207,6 +207,10 @@ func oracleC08(run *Run) {
 				run.fail("C08", "handler-payload", opName(x.Op), "%s: handler call %d received opcode %d payload %q (code %d); the wire has opcode %d payload %q (code %d)", who, i, h.Op, clip(h.Data), h.Code, x.Op, clip(string(x.Payload)), x.CloseCode)
 				break
 			}
+			if x.Inside && allNR(run) && !compressedScript(l.Script) && h.Delivered != x.AtBytes {
+				run.fail("C08", "handler-position", opName(x.Op), "%s: handler call %d ran after %d bytes of the surrounding message had been delivered; on the wire %d bytes of it precede that control frame", who, i, h.Delivered, x.AtBytes)
+				break
+			}
 			if h.MsgIndex != msgsBefore[i] && !abandons(run) {
 				run.fail("C08", "handler-order", opName(x.Op), "%s: handler call %d ran while message %d was being read, but on the wire %d messages end before that control frame", who, i, h.MsgIndex, msgsBefore[i])
 				break
@@ -350,4 +354,27 @@ func clip(s string) string {
 		return s[:40] + "…"
 	}
 	return s
+}
+
+// allNR: the read program consists of NextReader + Read loops that read every message to its end.
+func allNR(run *Run) bool {
+	t := rt0(run)
+	if len(t.R) == 0 {
+		return false
+	}
+	for _, op := range t.R {
+		if op.Kind != "nr" || op.Abandon != 0 {
+			return false
+		}
+	}
+	return true
+}
+
+func compressedScript(items []SItem) bool {
+	for _, it := range items {
+		if it.Kind == "msg" && it.Comp > 0 {
+			return true
+		}
+	}
+	return false
 }
